@@ -485,6 +485,12 @@ def combine_filtered(it, opn, a, b, node):
         elif opn == "mul" and is_pyconst(other):
             g = mk("mul", to_term(other), f.gain if f.gain is not None else const(1.0))
             return Filtered(f.src, g, f.axes, f.transformed, f.real)
+        elif opn in ("add", "sub") and isinstance(other, (Val, Unk)):
+            # something that is not a filtered version of the map is added to the filtered map (a constant, a mean): kept as an
+            # offset next to the gain -- the result is no longer `filter applied to the map`
+            r_ = Filtered(f.src, f.gain, f.axes, f.transformed, f.real)
+            r_.offset = list(getattr(f, "offset", [])) + [(opn if fa is not None else "rsub" if opn == "sub" else "add", to_term(other))]
+            return r_
         else:
             return None
     if opn not in ("add", "sub") or fa.src != fb.src or fa.transformed != fb.transformed:
